@@ -121,5 +121,7 @@ package mod
 // UPDATE from a key change).
 //@ func (*Cursor).Column
 //@   requires c != nil && c.common != nil && ctx != nil && ctx.Context != nil
+//@   requires c.common.t != nil && c.common.currentRow != nil && c.common.currentKey != nil && c.common.currentKey.SQLiteValue != nil   // a row is current (xColumn follows a successful xNext)
+//@   requires forall k string :: imp(has(c.common.currentRow.ColumnValues, k), c.common.currentRow.ColumnValues[k] != nil && c.common.currentRow.ColumnValues[k].Value != nil)
 //@   modifies gf(ctx.Context.ptr, "resKind"), gf(ctx.Context.ptr, "resInt"), gff(ctx.Context.ptr, "resReal"), gfs(ctx.Context.ptr, "resText"), gfs(ctx.Context.ptr, "resBlob")
 //@   ensures nochange: imp(ctxNoChange(ctx) && i != c.keyCol, result == nil && gf(ctx.Context.ptr, "resKind") == old(gf(ctx.Context.ptr, "resKind")))
